@@ -281,8 +281,15 @@ impl Check for C03 {
                 b.extend_from_slice(if object { b",\"last\":\"end\"}" } else { b",\"end\"]" });
                 ctx.class("doc:wide");
                 ctx.nontrivial();
-                // the very wide one: whole-input parse only (memory), the others through every route
-                check_doc(ctx, &b, n > 1_000_000);
+                // the very wide one: one whole-input parse (time and memory), the others through every route
+                if n > 1_000_000 {
+                    match recog::parse_document(&b) {
+                        Ok(d) => check_one(ctx, "whole:from_slice:very-wide", sonic_rs::from_slice::<Value>(&b), &d.root, &b, default_mode()),
+                        Err(_) => ctx.fail("harness:wide-doc", "reference parse failed".into()),
+                    }
+                } else {
+                    check_doc(ctx, &b, false);
+                }
                 ctx.sample("wide");
             }
             e => {
